@@ -221,7 +221,10 @@ func (e *Engine) typeTagByName(name string, pkg *ssa.Package) int {
 	ptr := strings.HasPrefix(name, "*")
 	n := strings.TrimPrefix(name, "*")
 	var t types.Type
-	if obj := types.Universe.Lookup(n); obj != nil {
+	if n == "bytes" {
+		t = types.NewSlice(types.Typ[types.Uint8]) // pseudo name for []byte
+	}
+	if obj := types.Universe.Lookup(n); obj != nil && t == nil {
 		if tn, ok := obj.(*types.TypeName); ok {
 			t = tn.Type()
 		}
